@@ -246,8 +246,8 @@ def _gen(stratum, rng, tier):
                 "pick": rng.choice(["best", "best", "first"]), "bp_max_iter": rng.choice([50, 1000, None])}
     if stratum == "custom-uncovered":
         # the initial columns cannot produce some demanded piece (the restricted master starts infeasible).  Whether the
-        # solvers can recover is not part of the statement - today they raise - but if a plan comes back it is judged like
-        # any other: "a plan that misses a demand is never presented as OPTIMAL or FEASIBLE"
+        # solvers can recover is not part of the statement, but they have to answer, and the answer is judged like any
+        # other: "a plan that misses a demand is never presented as OPTIMAL or FEASIBLE"
         c = _gen("custom-cols", rng, tier)
         need = [i for i, d in enumerate(c["dem"]) if d > 0]
         if not need:
@@ -260,7 +260,7 @@ def _gen(stratum, rng, tier):
             c["dem"] = c["dem"] + [1]
             c["cols"] = [tuple(col) + (0,) for col in c["cols"]] + [(0, 1)]
             c["init"] = [(0, 1)]
-        c["accept_crash"] = True
+        c["uncovered"] = True  # (until the repair of solve_cg's custom mode an exception was accepted here)
         return c
     if stratum == "custom-gap":
         # a caller-chosen optimality gap (gap_tol 1%..25%) on instances whose LP values sit just above an integer
@@ -429,8 +429,8 @@ def _solve_all(case, dem, common_kw, universe, fits, opt, obs, label):
         if stop or case.get(f"{solver}_kw"):
             obs.event("c17.config.cut-off-run")
         res = call(obs, fn, list(dem), what=f"solve_{solver}", budget=case.get("budget", BUDGET),
-                   expect=(Exception,) if case.get("accept_crash") else (), **ckw)
-        if case.get("accept_crash"):
+                   **ckw)
+        if case.get("uncovered"):
             obs.event("c17.uncovered.raised" if is_crash(res) else "c17.uncovered.answered")
         if not is_crash(res):
             _judge(res, solver, dem, fits, opt, obs, f"solve_{solver} {label} {shown or ''}", gap=kw.get("gap_tol"))
